@@ -26,7 +26,7 @@ where
         gsd_parser::Rule::hex_number => {
             u32::from_str_radix(pair.as_str().trim_start_matches("0x"), 16)
         }
-        _ => panic!("Called parse_number() on a non-number pair: {:?}", pair),
+        _ => return Err(parse_error("expected a number", pair.as_span())),
     }
     .map_err(|_| parse_error("invalid digit found while parsing integer", pair.as_span()))
     .and_then(|i| i.try_into().map_err(|e| parse_error(e, pair.as_span())))
@@ -62,10 +62,7 @@ where
         gsd_parser::Rule::dec_number | gsd_parser::Rule::hex_number => {
             vec![parse_number(pair)?]
         }
-        _ => panic!(
-            "Called parse_number_list() on a pair that cannot be a number list: {:?}",
-            pair
-        ),
+        _ => return Err(parse_error("expected a list of numbers", pair.as_span())),
     })
 }
 
